@@ -74,7 +74,12 @@ def eval_suite(suite, workdir, shard_size=150, timeout=1800):
                 rows.append("  (%s,\n   %s)" % (ops, tr))
             f.write(";\n".join(rows))
             f.write("].\n")
-            if g.get("model"):
+            if g.get("per_case_model"):
+                f.write("From V.lib Require Import Eval.\n")
+                f.write("Definition R_model := Eval vm_compute in failures_pc [\n")
+                f.write(";\n".join("  (%s, nth %d cases ([], []))" % (c["model"], i) for i, c in enumerate(cs)))
+                f.write("].\nPrint R_model.\n")
+            elif g.get("model"):
                 f.write("Definition R_model := Eval vm_compute in failures (%s) cases.\nPrint R_model.\n" % g["model"])
             for mn, me in g.get("monitors", {}).items():
                 f.write("Definition R_mon_%s := Eval vm_compute in failures (%s) cases.\nPrint R_mon_%s.\n" % (mn, me, mn))
